@@ -57,6 +57,7 @@ Init ==
                marketing |-> [addr |-> IF mkOn THEN "a1" ELSE "none", logo |-> "none"], mkt |-> [on |-> mkOn, addr |-> "a1", logo |-> "none"]]
     /\ ev = [act |-> "reset", by |-> "env", ok |-> TRUE]
     /\ sched = <<>>
+    /\ \A i \in 1..20 : TLCSet(100 + i, 0)
 
 \* one call: taken as a real step when the reference guard holds; in Gen mode a call whose guard
 \* is false is a failing call (state unchanged) that still goes into the schedule
@@ -155,8 +156,20 @@ MC_InitBalsGen == {b \in [Addr -> 0..3] : SumOver(Addr, b) <= 4}
 EmitSchedule ==
   (GenMode /\ Len(sched) = GenDepth) =>
      PrintT(<<"SCHED", ToJson([cfg |-> cfgv, steps |-> sched])>>)
-\* sampled breadth-first generation: the BFS path of every SampleK-th distinct state of the model
+\* corner states whose BFS path is always emitted (once per worker), whatever the sampling rate
+Goals == <<
+  \E p \in Pairs : Listed(ov, p) /\ allow[p].amt = 0,                         \* an allowance drawn to exactly zero
+  \E p \in Pairs : allow[p].amt > 0 /\ Expired(allow[p].exp, now),              \* an expired allowance with something left
+  mint.addr # "none" /\ mint.cap # -1 /\ supply = mint.cap,                      \* supply at the cap
+  supply = maxAmt,                                                               \* supply at the u128 bound
+  mint.addr = "none" /\ cfgv.minter # "none",                                    \* minter renounced
+  migrated /\ cfgv.legacy /\ ov # {},                                            \* migrated legacy table with entries
+  \E p \in Pairs : credit[p] > 0 /\ ~Listed(ov, p),                             \* a revoked allowance
+  supply = 0 /\ accts # {}                                                       \* everything burned
+>>
+NewGoal == \E i \in 1..Len(Goals) : Goals[i] /\ TLCGet(100 + i) = 0 /\ TLCSet(100 + i, 1)
 EmitSampled ==
-  (GenMode /\ ~GenFail /\ Len(sched) > 0 /\ TLCGet("distinct") % SampleK = 0) =>
-     PrintT(<<"SCHED", ToJson([cfg |-> cfgv, steps |-> sched])>>)
+  (GenMode /\ ~GenFail /\ Len(sched) > 0) =>
+     (IF NewGoal \/ TLCGet("distinct") % SampleK = 0
+      THEN PrintT(<<"SCHED", ToJson([cfg |-> cfgv, steps |-> sched])>>) ELSE TRUE)
 =============================================================================
